@@ -40,6 +40,8 @@ func validateStrict(b []byte) error {
 	return err
 }
 
+func pageCount(b []byte) (int, error) { return api.PageCount(bytes.NewReader(b), strictConf()) }
+
 func dumpFailure(t *testing.T, name string, b []byte) string {
 	dir := filepath.Join(os.TempDir(), "pdfgen-failures")
 	os.MkdirAll(dir, 0o755)
